@@ -765,6 +765,53 @@ func runC11(root ygot.GoStruct, orig *abs.Tree, pkg *reg.Pkg, x *conc.Ctx, res *
 	if after := abs.Project(other, pkg); len(after.Lines()) != 0 {
 		res.Violate("C11", sig("C11", "Diff-mutates-input"), "Diff changed its (empty) second argument: "+strings.Join(after.Lines(), "; "), tc)
 	}
+	// GetNode at every prefix of every data path of the tree (in the compressed packages these
+	// include the surrounding containers that have no field of their own), with and without the
+	// keys of the last element, under every option
+	if sch, err := rootSchema(pkg); err == nil {
+		if ns, err := ygot.TogNMINotifications(root, 1, ygot.GNMINotificationsConfig{UsePathElem: true}); err == nil {
+			seen := map[string]bool{}
+			var paths []*gpb.Path
+			for _, n := range ns {
+				for _, u := range n.Update {
+					full := append(append([]*gpb.PathElem{}, n.GetPrefix().GetElem()...), u.Path.GetElem()...)
+					for i := 1; i <= len(full); i++ {
+						pre := &gpb.Path{Elem: full[:i]}
+						cands := []*gpb.Path{pre}
+						if len(pre.Elem[i-1].Key) > 0 {
+							nk := proto.Clone(pre).(*gpb.Path)
+							nk.Elem[i-1].Key = nil
+							cands = append(cands, nk)
+						}
+						for _, c := range cands {
+							if k := pathString(c); !seen[k] {
+								seen[k] = true
+								paths = append(paths, proto.Clone(c).(*gpb.Path))
+							}
+						}
+					}
+				}
+			}
+			for _, opts := range [][]ytypes.GetNodeOpt{nil, {&ytypes.GetPartialKeyMatch{}}, {&ytypes.GetHandleWildcards{}}, {&ytypes.GetTolerateNil{}}, {&ytypes.PreferShadowPath{}}} {
+				for _, gp := range paths {
+					ref := proto.Clone(gp)
+					call("GetNode", func() error { _, err := ytypes.GetNode(sch, root, gp, opts...); return err })
+					if !proto.Equal(ref, gp) {
+						res.Violate("C11", sig("C11", "GetNode-mutates-path"), "GetNode modified the path it was given: "+pathString(ref.(*gpb.Path)), tc)
+					}
+				}
+				if after := conc.Restrict(abs.Project(root, pkg), x.V); !abs.Equal(after, orig, true) {
+					var ps []string
+					for _, gp := range paths {
+						ps = append(ps, pathString(gp))
+					}
+					res.Violate("C11", sig("C11", "GetNode-mutates-input"), fmt.Sprintf("GetNode (options %T) over the prefixes %v changed the tree: %s", opts, ps, strings.Join(abs.Diff(after, orig, true), "; ")), tc)
+					return
+				}
+			}
+			res.Count("getnode_prefix_calls", len(paths)*5)
+		}
+	}
 	// Validate with options
 	lo := &ytypes.LeafrefOptions{IgnoreMissingData: true, Log: false}
 	validate(root, lo)
